@@ -2,6 +2,7 @@
 //vp:pkg ./tsdb
 //vp:roots ./model/labels ./model/exemplar ./storage
 //vp:bounds CircularExemplarStorage.AddExemplar (validateExemplar, findInsertionIndex, removeExemplar, removeIndex): capacity 1..3, a history of 4 adds (thorough 5) to 2 series with symbolic timestamps |t|<=2^60 and arbitrary float64 values, out-of-order window symbolic in [0,2^60]; exemplar label sets empty (so the label-hash tie-break is constant); compared after every add with a reference model written from the property and the code's documentation
+//vp:bounds Select over both series after 3 adds, arbitrary time range
 //vp:bounds Resize (grow / shrink / copyExemplarRanges): after 3 adds, a resize to capacity 1..4, then one more add; compared with the reference (keep the most recently accepted that fit) after each step
 //vp:assume exemplar labels are empty; values are compared as floats exactly as the documentation states
 package tsdb
@@ -209,5 +210,61 @@ func vpH_C21_exemplar_resize() {
 	if !add() {
 		return
 	}
+	vpReach("end")
+}
+
+// A query returns, per matching series in label order, its retained exemplars inside the time range in list order.
+func vpH_C21_exemplar_select() {
+	capN := vpShape("cap", 1, 3)
+	window := vpInt64()
+	vpAssume(vpAnd(window >= 0, window <= 1<<60))
+	es, err := NewCircularExemplarStorage(int64(capN), NewExemplarMetrics(nil), window)
+	if err != nil {
+		panic(err)
+	}
+	ce := es.(*CircularExemplarStorage)
+	series := []labels.Labels{labels.FromStrings("a", "1"), labels.FromStrings("a", "2")}
+	m := &vpXExModel{cap: capN, lists: make([][]vpXEx, 2), window: window}
+	for step := 0; step < 3; step++ {
+		s := vpShape("series", 0, 1)
+		ts, v := vpInt64(), vpFloat64()
+		vpAssume(vpAnd(ts >= -(1<<60), ts <= 1<<60))
+		vpAssume(!math.IsNaN(v))
+		err := ce.AddExemplar(series[s], exemplar.Exemplar{Ts: ts, Value: v, HasTs: true})
+		want := m.add(s, ts, v)
+		vpAssert((err != nil) == (want == 1), "accepted or rejected as out of order exactly as the rules say")
+	}
+	start, end := vpInt64(), vpInt64()
+	vpAssume(start <= end)
+	res, err := ce.Select(start, end,
+		[]*labels.Matcher{labels.MustNewMatcher(labels.MatchEqual, "a", "1")},
+		[]*labels.Matcher{labels.MustNewMatcher(labels.MatchEqual, "a", "2")})
+	vpAssert(err == nil, "no error")
+	vpObserve("series", len(res))
+	k := 0
+	for si := range series {
+		var want []vpXEx
+		for _, x := range m.lists[si] {
+			if x.ts >= start && x.ts <= end {
+				want = append(want, x)
+			}
+		}
+		if len(want) == 0 {
+			continue
+		}
+		vpAssert(k < len(res), "every series with retained exemplars in the range is returned")
+		if k >= len(res) {
+			return
+		}
+		vpAssert(labels.Equal(res[k].SeriesLabels, series[si]), "series in label order")
+		vpAssert(len(res[k].Exemplars) == len(want), "exactly the retained exemplars inside the range")
+		if len(res[k].Exemplars) == len(want) {
+			for i := range want {
+				vpAssert(res[k].Exemplars[i].Ts == want[i].ts && math.Float64bits(res[k].Exemplars[i].Value) == math.Float64bits(want[i].v), "in non-decreasing timestamp order, as stored")
+			}
+		}
+		k++
+	}
+	vpAssert(k == len(res), "no other series is returned")
 	vpReach("end")
 }
